@@ -576,6 +576,22 @@ func sliceHighBounded(e *Eng, fn *ssa.Function, sl *ssa.Slice, base ssa.Value) b
 				return true
 			}
 			seen[h] = true
+			// a counter: starts bounded, and is only ever incremented by one where "counter < len(x)" holds
+			if counterBelowLen(e, fn, v, isLenOfBase) {
+				start := true
+				for i, ed := range v.Edges {
+					if bo, ok := ed.(*ssa.BinOp); ok && bo.Op == token.ADD && bo.X == ssa.Value(v) {
+						continue
+					}
+					alt := Alt{ed, v.Block().Preds[i], v.Block()}
+					if k, isK := ed.(*ssa.Const); !(isK && k.Value != nil && k.Int64() == 0) && !bounded(ed, &alt, seen, depth+1) {
+						start = false
+					}
+				}
+				if start {
+					return true
+				}
+			}
 			for i, ed := range v.Edges {
 				alt := Alt{ed, v.Block().Preds[i], v.Block()}
 				if !bounded(ed, &alt, seen, depth+1) {
@@ -667,4 +683,42 @@ func init() {
 		webhookOutcomeRule(o)
 		o.MinSites(1)
 	})
+}
+
+// counterBelowLen: every edge of phi that is not its start value is "phi + 1", computed only where an enclosing test
+// "phi < len(x)" holds (so phi never exceeds len(x)).
+func counterBelowLen(e *Eng, fn *ssa.Function, phi *ssa.Phi, isLen func(ssa.Value) bool) bool {
+	incs := 0
+	for _, ed := range phi.Edges {
+		bo, ok := ed.(*ssa.BinOp)
+		if !ok || bo.X != ssa.Value(phi) {
+			continue
+		}
+		if bo.Op != token.ADD || !isIntConst(bo.Y, 1) {
+			return false
+		}
+		incs++
+		guarded := false
+		for _, b := range fn.Blocks {
+			if len(b.Instrs) == 0 {
+				continue
+			}
+			iff, isIf := b.Instrs[len(b.Instrs)-1].(*ssa.If)
+			if !isIf {
+				continue
+			}
+			c, isB := iff.Cond.(*ssa.BinOp)
+			if !isB || c.Op != token.LSS || c.X != ssa.Value(phi) || !isLen(c.Y) {
+				continue
+			}
+			l := e.CondLit(fn, iff.Cond)
+			if e.OnlyUnder(bo, L(l.Atom, l.Pos)) {
+				guarded = true
+			}
+		}
+		if !guarded {
+			return false
+		}
+	}
+	return incs > 0
 }
